@@ -2,6 +2,7 @@ package checks
 
 import (
 	"fmt"
+	"regexp"
 	"strings"
 
 	"github.com/cloudspannerecosystem/memefish/ast"
@@ -46,6 +47,8 @@ func standalone(n ast.Node) (e *Entry, pick func(ast.Node) ast.Node, ok bool) {
 	}
 	return nil, nil, false
 }
+
+var regexpIndex = regexp.MustCompile(`\[\d+\]`)
 
 // checkExactPositions is C06's oracle on one accepted input whose round trip holds.
 func checkExactPositions(e *Entry, x string, res ParseResult) (viol map[string]string, nodes int) {
@@ -107,6 +110,14 @@ func checkExactPositions(e *Entry, x string, res ParseResult) (viol map[string]s
 		}
 		y := x[:p] + " " + sql + " " + x[en:]
 		r3 := e.Call(y)
+		// an identifier's failure is named together with the place it stands in (its last field names)
+		if tn == "Ident" {
+			f := strings.FieldsFunc(regexpIndex.ReplaceAllString(v.Path, ""), func(r rune) bool { return r == '.' })
+			if len(f) > 3 {
+				f = f[len(f)-3:]
+			}
+			tn = "Ident/at=" + strings.Join(f, ".")
+		}
 		switch {
 		case r3.Panic != nil:
 		case r3.Err != nil:
